@@ -1,4 +1,5 @@
 import Pendulum.Proofs.TimeOfDay
+import Pendulum.Proofs.TimeGen
 /-! # C20 — time-of-day arithmetic wraps modulo 24 hours exactly
 
 Property theorems only. `TimeOfDay.*` (Model/TimeOfDay.lean) is the hand model of `pendulum/time.py`
@@ -183,5 +184,113 @@ def diffOld (self dt : Int) : Int :=
 
 theorem diff_old_counterexample : ¬ (∀ a b, 0 ≤ a ∧ a < DAY → 0 ≤ b ∧ b < DAY → diffOld a b = b - a) := by
   intro h; have := h 3723500000 3724250000 (by decide) (by decide); revert this; decide
+
+/-! ## tie to the source: the generated translation of `pendulum/time.py`
+
+`Pendulum.Gen.TimeOfDay` is regenerated from /repo/src/pendulum/time.py (and `DateTime.at/time/subtract`) by
+tools/gen_time.py on every run.  These theorems re-check, against what the code says now, that the model
+`TimeOfDay.*` the theorems above are about *is* the code: a change to `diff`, `closest`, the timedelta guards, the
+operator dispatch or the way `add` drives its carrier either keeps them provable or breaks the build.
+Vocabulary (Proofs/TimeGen.lean): a time of day `t` is handed to the generated code as its fields `fields t`;
+`klassUs (klass, us)` is the total of `klass(microseconds=us)` (`AbsoluteDuration` → absolute value; the Duration
+classes themselves are C09's subject); `DtAddOk dtAdd` says that the abstract carrier
+`DateTime.EPOCH.at(..).add(hours=.., minutes=.., seconds=.., microseconds=..)` is the model's `add`. -/
+open Pendulum.TimeGen
+open Pendulum.Gen.TimeOfDay (Klass OKind Res DtAdd)
+
+/-- `Time.diff` as written in the source: on arbitrary field values the class is chosen by `abs` and the
+    `microseconds=` argument is the difference of the two full totals; on times of day it is the model's `diff` -/
+theorem diff_source_eq_model (a b : Int) (abs : Bool) :
+    (∀ h1 m1 s1 u1 h2 m2 s2 u2 : Int, Gen.TimeOfDay.diff h1 m1 s1 u1 h2 m2 s2 u2 abs =
+      (if abs then Klass.AbsoluteDuration else Klass.Duration, ofFields h2 m2 s2 u2 - ofFields h1 m1 s1 u1)) ∧
+    klassUs (gdiff a b abs) = diff a b abs :=
+  ⟨fun h1 m1 s1 u1 h2 m2 s2 u2 => diff_fields h1 m1 s1 u1 h2 m2 s2 u2 abs, diff_eq a b abs⟩
+example : Gen.TimeOfDay.diff 1 2 3 500000 1 2 4 250000 true = (Klass.AbsoluteDuration, 750000) := by decide
+example : gdiff 3724250000 3723500000 false = (Klass.Duration, -750000) := by decide
+
+/-- `Time.closest` / `Time.farthest` as written in the source return the fields of the operand the model picks
+    (strict comparison of the two distances, second operand on a tie) -/
+theorem closest_farthest_source_eq_model (t a b : Int) :
+    Gen.TimeOfDay.closest klassUs (fields t).1 (fields t).2.1 (fields t).2.2.1 (fields t).2.2.2
+      (fields a).1 (fields a).2.1 (fields a).2.2.1 (fields a).2.2.2
+      (fields b).1 (fields b).2.1 (fields b).2.2.1 (fields b).2.2.2 = fields (closest t a b) ∧
+    Gen.TimeOfDay.farthest klassUs (fields t).1 (fields t).2.1 (fields t).2.2.1 (fields t).2.2.2
+      (fields a).1 (fields a).2.1 (fields a).2.2.1 (fields a).2.2.2
+      (fields b).1 (fields b).2.1 (fields b).2.2.1 (fields b).2.2.2 = fields (farthest t a b) :=
+  ⟨closest_eq t a b, farthest_eq t a b⟩
+example : Gen.TimeOfDay.closest klassUs 0 0 0 0 0 0 1 200000 0 0 1 900000 = (0, 0, 1, 200000) := by decide
+example : Gen.TimeOfDay.closest klassUs 0 0 1 0 0 0 0 0 0 0 2 0 = (0, 0, 2, 0) := by decide      -- tie → dt2
+example : Gen.TimeOfDay.farthest klassUs 0 0 1 0 0 0 0 0 0 0 2 0 = (0, 0, 2, 0) := by decide     -- tie → dt2
+
+/-- `Time.add` / `Time.subtract` as written in the source (all four fields into `DateTime.EPOCH.at`, the four
+    amounts as `hours= minutes= seconds= microseconds=` of the carrier's `add` / `subtract` = `add` of the negated
+    amounts, `.time()` of the result) are the model's, for every carrier that is the model's -/
+theorem add_subtract_source_eq_model (dtAdd : DtAdd) (ok : DtAddOk dtAdd) (t h mi s us : Int) (ht : 0 ≤ t ∧ t < DAY) :
+    Gen.TimeOfDay.add dtAdd (fields t).1 (fields t).2.1 (fields t).2.2.1 (fields t).2.2.2 h mi s us
+      = liftT (add t h mi s us) ∧
+    Gen.TimeOfDay.subtract dtAdd (fields t).1 (fields t).2.1 (fields t).2.2.1 (fields t).2.2.2 h mi s us
+      = liftT (subtract t h mi s us) :=
+  ⟨TimeGen.add_eq dtAdd ok t h mi s us ht, subtract_eq dtAdd ok t h mi s us ht⟩
+
+/-- the hypothesis on the carrier is satisfiable: the model's own `add`, read on field tuples -/
+theorem carrier_hypothesis_satisfiable : DtAddOk dtAddRef := dtAddRef_ok
+example : Gen.TimeOfDay.add dtAddRef 1 2 3 4 (-30) 0 0 0 = .ok (19, 2, 3, 4) := by rfl
+example : Gen.TimeOfDay.subtract dtAddRef 0 0 0 0 0 0 1 0 = .ok (23, 59, 59, 0) := by rfl
+
+/-- `add_timedelta` / `subtract_timedelta` as written in the source: the day-component guard and the
+    `seconds=, microseconds=` handed on to `add` / `subtract` are the model's `addTd` / `subTd` -/
+theorem timedelta_source_eq_model (dtAdd : DtAdd) (ok : DtAddOk dtAdd) (t : Int) (d : TD) (ht : 0 ≤ t ∧ t < DAY) :
+    Gen.TimeOfDay.add_timedelta dtAdd (fields t).1 (fields t).2.1 (fields t).2.2.1 (fields t).2.2.2
+      d.days d.seconds d.micros = liftT (addTd t d) ∧
+    Gen.TimeOfDay.subtract_timedelta dtAdd (fields t).1 (fields t).2.1 (fields t).2.2.1 (fields t).2.2.2
+      d.days d.seconds d.micros = liftT (subTd t d) :=
+  ⟨add_timedelta_eq dtAdd ok t d ht, subtract_timedelta_eq dtAdd ok t d ht⟩
+example : Gen.TimeOfDay.add_timedelta dtAddRef 23 59 59 999999 0 0 2 = .ok (0, 0, 0, 1) := by rfl
+example : Gen.TimeOfDay.add_timedelta dtAddRef 0 0 0 0 (-1) 86399 0 = .error "TypeError" := by rfl
+example : Gen.TimeOfDay.subtract_timedelta dtAddRef 0 0 0 0 1 0 0 = .error "TypeError" := by rfl
+
+/-- `Time.__add__` as written in the source: a timedelta goes to `add_timedelta`, any other operand gets
+    `NotImplemented` -/
+theorem op_add_source_eq_model (dtAdd : DtAdd) (ok : DtAddOk dtAdd) (t : Int) (ht : 0 ≤ t ∧ t < DAY) (sa oa : Bool)
+    (k : OKind) (oh om os ou : Int) (d : TD) :
+    Gen.TimeOfDay.op_add dtAdd (fields t).1 (fields t).2.1 (fields t).2.2.1 (fields t).2.2.2 sa k oa oh om os ou
+      d.days d.seconds d.micros =
+    (match k with
+     | .timedelta => Except.map Res.time (liftT (addTd t d))
+     | _ => .ok .notImplemented) :=
+  op_add_eq dtAdd ok t ht sa oa k oh om os ou d
+example : Gen.TimeOfDay.op_add dtAddRef 1 0 0 0 false .timedelta false 0 0 0 0 0 3600 0 = .ok (.time (2, 0, 0, 0)) := by rfl
+example : Gen.TimeOfDay.op_add dtAddRef 1 0 0 0 false .time false 0 0 0 0 0 3600 0 = .ok .notImplemented := by rfl
+
+/-- `Time.__sub__` as written in the source: timedelta → `subtract_timedelta`; a naive time of either class →
+    `Duration(microseconds = self − other)` (the model's `sub`); an aware time → TypeError; else `NotImplemented` -/
+theorem op_sub_source_eq_model (dtAdd : DtAdd) (ok : DtAddOk dtAdd) (a b : Int) (ha : 0 ≤ a ∧ a < DAY) (sa oa : Bool)
+    (k : OKind) (d : TD) :
+    Gen.TimeOfDay.op_sub dtAdd (fields a).1 (fields a).2.1 (fields a).2.2.1 (fields a).2.2.2 sa k oa
+      (fields b).1 (fields b).2.1 (fields b).2.2.1 (fields b).2.2.2 d.days d.seconds d.micros =
+    (match k with
+     | .timedelta => Except.map Res.time (liftT (subTd a d))
+     | .other => .ok .notImplemented
+     | _ => if oa then .error "TypeError" else .ok (.duration (.Duration, sub a b))) :=
+  op_sub_eq dtAdd ok a b ha sa oa k d
+example : Gen.TimeOfDay.op_sub dtAddRef 1 2 4 250000 false .time false 1 2 3 500000 0 0 0
+    = .ok (.duration (.Duration, 750000)) := by rfl
+example : Gen.TimeOfDay.op_sub dtAddRef 1 2 4 250000 false .pendulumTime true 1 2 3 500000 0 0 0
+    = .error "TypeError" := by rfl
+
+/-- `Time.__rsub__` as written in the source (`other - self` with a foreign left operand): a naive time is rebuilt
+    and handed to `__sub__` with the operands in the order (other, self) — the model's `rsub`; an aware operand on
+    either side → TypeError; timedelta and anything else → `NotImplemented`.  No hypothesis on the carrier. -/
+theorem op_rsub_source_eq_model (dtAdd : DtAdd) (self other : Int) (sa oa : Bool) (k : OKind) (d : TD) :
+    Gen.TimeOfDay.op_rsub dtAdd (fields self).1 (fields self).2.1 (fields self).2.2.1 (fields self).2.2.2 sa k oa
+      (fields other).1 (fields other).2.1 (fields other).2.2.1 (fields other).2.2.2 d.days d.seconds d.micros =
+    (match k with
+     | .timedelta => .ok .notImplemented
+     | .other => .ok .notImplemented
+     | _ => if oa || sa then .error "TypeError" else .ok (.duration (.Duration, rsub self other))) :=
+  op_rsub_eq dtAdd self other sa oa k d
+example : Gen.TimeOfDay.op_rsub dtAddRef 1 2 3 500000 false .time false 1 2 4 250000 0 0 0
+    = .ok (.duration (.Duration, 750000)) := by rfl
+example : Gen.TimeOfDay.op_rsub dtAddRef 1 2 3 500000 false .timedelta false 0 0 0 0 0 5 0 = .ok .notImplemented := by rfl
 
 end Pendulum.Props.C20
